@@ -22,7 +22,7 @@ import (
 
 type c22Layer struct {
 	Kind   string `json:"kind"` // cache | prefix | multi
-	Prefix B      `json:"prefix,omitempty"`
+	Prefix B      `json:"prefix"`
 }
 
 type c22It struct {
@@ -39,14 +39,14 @@ type c22W struct {
 	At  int  `json:"at"` // after this many items were consumed in total
 	Del bool `json:"del,omitempty"`
 	Key B    `json:"key"`
-	Val B    `json:"val,omitempty"`
+	Val B    `json:"val"`
 }
 
 type c22Op struct {
 	Op     string    `json:"op"` // get has set del iter write ckpt wckpt wrap drop
 	L      int       `json:"l"`  // 0 = dbadapter base, i = i-th layer
-	Key    B         `json:"key,omitempty"`
-	Val    B         `json:"val,omitempty"`
+	Key    B         `json:"key"`
+	Val    B         `json:"val"`
 	Its    []c22It   `json:"its,omitempty"`
 	During []c22W    `json:"during,omitempty"`
 	Layer  *c22Layer `json:"layer,omitempty"` // wrap
@@ -71,10 +71,34 @@ func c22DrawBytes(rt *rapid.T, label string, lo, hi int) B {
 	return out
 }
 
-// c22DrawKey draws a key for layer L: short strings over the alphabet, often
-// extended so that they fall under the prefixes of the prefix layers above L
-// (so that writes at low layers are visible through the prefix views).
-func c22DrawKey(rt *rapid.T, label string, layers []c22Layer, L int) B {
+// c22DrawKey draws a key for layer L. Most keys come from a small per-case pool
+// of base-level keys (translated into the key space of layer L by stripping the
+// prefixes of the prefix layers up to L), so that deletes, overwrites and
+// iterator bounds frequently hit keys that exist in lower layers; the rest are
+// short strings over the alphabet, often placed under the prefixes of the
+// prefix layers above L (so that they stay visible through those views).
+func c22DrawKey(rt *rapid.T, label string, layers []c22Layer, L int, pool []B) B {
+	if len(pool) > 0 && rapid.IntRange(0, 9).Draw(rt, label+"pool") < 7 {
+		var down []byte // prefixes of layers 1..L
+		for i := 0; i < L && i < len(layers); i++ {
+			if layers[i].Kind == "prefix" {
+				down = append(down, layers[i].Prefix...)
+			}
+		}
+		var cands []B
+		for _, k := range pool {
+			if bytes.HasPrefix(k, down) {
+				cands = append(cands, B(clone(k[len(down):])))
+			}
+		}
+		if len(cands) > 0 {
+			k := cands[rapid.IntRange(0, len(cands)-1).Draw(rt, label+"pk")]
+			if k == nil {
+				k = B{}
+			}
+			return k
+		}
+	}
 	k := c22DrawBytes(rt, label, 0, 3)
 	// path of prefixes from L upwards
 	var path []byte
@@ -105,11 +129,11 @@ func c22DrawVal(rt *rapid.T, label string) B {
 	return c22DrawBytes(rt, label, 1, 2)
 }
 
-func c22DrawBound(rt *rapid.T, label string, layers []c22Layer, L int) B {
+func c22DrawBound(rt *rapid.T, label string, layers []c22Layer, L int, pool []B) B {
 	if rapid.IntRange(0, 2).Draw(rt, label+"nil") == 0 {
 		return nil
 	}
-	return c22DrawKey(rt, label, layers, L)
+	return c22DrawKey(rt, label, layers, L, pool)
 }
 
 func c22DrawLayer(rt *rapid.T, label string) c22Layer {
@@ -140,6 +164,21 @@ func c22Draw(rt *rapid.T) c22Case {
 		c.Layers[n-1] = c22Layer{Kind: "cache"}
 	}
 	layers := append([]c22Layer{}, c.Layers...)
+	// pool of base-level keys, most of them visible through all prefix layers
+	var all []byte
+	for _, l := range layers {
+		if l.Kind == "prefix" {
+			all = append(all, l.Prefix...)
+		}
+	}
+	var pool []B
+	for i, n := 0, rapid.IntRange(3, 8).Draw(rt, "npool"); i < n; i++ {
+		k := c22DrawBytes(rt, "pool", 0, 2)
+		if rapid.IntRange(0, 4).Draw(rt, "poolin") > 0 {
+			k = append(B(clone(all)), k...)
+		}
+		pool = append(pool, k)
+	}
 	// symbolic state used to respect the usage contract
 	touched := make([]bool, len(layers)+1) // cache layer holds cached reads or dirty entries
 	ckpt := make([]bool, len(layers)+1)
@@ -178,14 +217,14 @@ func c22Draw(rt *rapid.T) c22Case {
 			L = 0
 		}
 		op := c22Op{L: L}
-		kinds := []string{"get", "get", "has", "iter", "iter", "iter"}
+		kinds := []string{"get", "get", "get", "has", "iter", "iter", "iter", "iter"}
 		if canMutate(L) {
-			kinds = append(kinds, "set", "set", "set", "set", "set", "del", "del", "del")
+			kinds = append(kinds, "set", "set", "set", "set", "set", "set", "del", "del", "del", "del")
 		}
 		if L >= 1 && c22IsCache(layers[L-1].Kind) {
-			kinds = append(kinds, "write", "write", "ckpt")
+			kinds = append(kinds, "write", "write", "write", "ckpt", "ckpt")
 			if ckpt[L] && canMutate(L) {
-				kinds = append(kinds, "wckpt", "wckpt", "wckpt")
+				kinds = append(kinds, "wckpt", "wckpt", "wckpt", "wckpt")
 			}
 		}
 		if top < 7 {
@@ -197,13 +236,13 @@ func c22Draw(rt *rapid.T) c22Case {
 		op.Op = rapid.SampledFrom(kinds).Draw(rt, "op")
 		switch op.Op {
 		case "get", "has":
-			op.Key = c22DrawKey(rt, "k", layers, L)
+			op.Key = c22DrawKey(rt, "k", layers, L, pool)
 			touch(L)
 		case "set":
-			op.Key, op.Val = c22DrawKey(rt, "k", layers, L), c22DrawVal(rt, "v")
+			op.Key, op.Val = c22DrawKey(rt, "k", layers, L, pool), c22DrawVal(rt, "v")
 			touch(L)
 		case "del":
-			op.Key = c22DrawKey(rt, "k", layers, L)
+			op.Key = c22DrawKey(rt, "k", layers, L, pool)
 			touch(L)
 		case "iter":
 			k := 1
@@ -211,7 +250,7 @@ func c22Draw(rt *rapid.T) c22Case {
 				k = 2
 			}
 			for j := 0; j < k; j++ {
-				it := c22It{Start: c22DrawBound(rt, "s", layers, L), End: c22DrawBound(rt, "e", layers, L), Rev: rapid.Bool().Draw(rt, "rev"), Steps: -1}
+				it := c22It{Start: c22DrawBound(rt, "s", layers, L, pool), End: c22DrawBound(rt, "e", layers, L, pool), Rev: rapid.Bool().Draw(rt, "rev"), Steps: -1}
 				if rapid.IntRange(0, 4).Draw(rt, "partial") == 0 {
 					it.Steps = rapid.IntRange(0, 3).Draw(rt, "steps")
 				}
@@ -220,7 +259,7 @@ func c22Draw(rt *rapid.T) c22Case {
 			if L >= 1 && landsInCache(L) && canMutate(L) && rapid.IntRange(0, 2).Draw(rt, "during") == 0 {
 				m := rapid.IntRange(1, 3).Draw(rt, "nw")
 				for j := 0; j < m; j++ {
-					w := c22W{At: rapid.IntRange(0, 4).Draw(rt, "at"), Key: c22DrawKey(rt, "wk", layers, L)}
+					w := c22W{At: rapid.IntRange(0, 4).Draw(rt, "at"), Key: c22DrawKey(rt, "wk", layers, L, pool)}
 					if rapid.IntRange(0, 2).Draw(rt, "wdel") == 0 {
 						w.Del = true
 					} else {
